@@ -154,9 +154,17 @@ fn run_with_fault(
     simfs::pause_fault(true);
     let ops = spec.ops.clone();
     let mut fired_at: Option<usize> = None;
+    // set when the caller carried on after a failed call: (op index, version id right after it)
+    let mut continued_after: Option<(usize, u64, Option<View>)> = None;
     let mut i = 0;
     while i < ops.len() {
         let op = &ops[i];
+        if continued_after.is_some() && matches!(op, Op::Reopen) {
+            // after a failed call that the caller did not retry, the disk may legitimately be
+            // one step ahead of memory; intermediate reopens are covered by the final one below
+            i += 1;
+            continue;
+        }
         let target = is_target(op) && fired_at.is_none();
         let before_durable = e.model.durable_view();
         let snaps_before = e.snaps.len();
@@ -294,6 +302,24 @@ fn run_with_fault(
             // does not know which of the two states was chosen): the evaluation ends here
             return Ok(());
         }
+        if !c20 && rng.chance(1, 3) {
+            // neither retried nor reopened: the caller gives up on this call and carries on with
+            // other work; the model is unchanged (the call failed), every later step is checked
+            // against it, and the run ends with a reopen that must yield the flushed state
+            stats.inc("fault_then_continue");
+            let mid = if matches!(op, Op::Ingest { .. }) {
+                // memtables flushed by finish(), ingested tables not registered
+                let mut m = e.model.clone();
+                m.rotate();
+                m.flush_sealed();
+                Some(m.durable_view())
+            } else {
+                None
+            };
+            continued_after = Some((i, lsm_tree::verif::dump_current(e.tree()).id, mid));
+            i += 1;
+            continue;
+        }
         // retry the same call now that the fault has cleared
         stats.inc("fault_then_retry");
         let retry_op = match op {
@@ -323,8 +349,55 @@ fn run_with_fault(
         i += 1;
     }
     simfs::disarm_fault();
-    // finally a clean reopen must give the flushed state (the engine's own reopen oracle)
-    e.step(&Op::Reopen)?;
+    // finally a clean reopen must give the flushed state
+    match continued_after {
+        None => {
+            // (the engine's own reopen oracle)
+            e.step(&Op::Reopen)?;
+        }
+        Some((failed_idx, vid_then, mid)) => {
+            // The failed call may have reached the disk (e.g. the error came from an fsync after
+            // `current` had been switched): as long as no later version change has rewritten the
+            // manifest from memory, a reopen may yield the state *after* the failed call.
+            let no_install_since = lsm_tree::verif::dump_current(e.tree()).id == vid_then;
+            let mut want_mem = e.model.durable_view();
+            want_mem.retain(|k, _| !crate::engine::is_wild(k));
+            let after_failed = base.durable_after[failed_idx].clone();
+            e.tree = None;
+            e.snaps.clear();
+            e.seqno = lsm_tree::SequenceNumberCounter::default();
+            e.visible = lsm_tree::SequenceNumberCounter::default();
+            if let Err(v) = e.open() {
+                return Err(Violation {
+                    tag: "fault".into(),
+                    class: format!("fault/final-reopen-failed-after-failed-{}", ops[failed_idx].name()),
+                    msg: format!(
+                        "{} (op #{failed_idx}) failed, the caller carried on; the final reopen fails: {}",
+                        ops[failed_idx].name(),
+                        v.msg
+                    ),
+                    at_op: failed_idx,
+                });
+            }
+            let got = e.dump(u64::MAX)?;
+            let ok = got == want_mem
+                || (no_install_since
+                    && (got == after_failed || mid.as_ref().is_some_and(|m| *m == got)));
+            if !ok {
+                return Err(Violation {
+                    tag: "fault".into(),
+                    class: format!("fault/final-reopen-state-after-failed-{}", ops[failed_idx].name()),
+                    msg: format!(
+                        "{} (op #{failed_idx}) failed, the caller carried on; the final reopen yields {} but the flushed state is {}",
+                        ops[failed_idx].name(),
+                        crate::engine::fmt_view(&got),
+                        crate::engine::fmt_view(&want_mem)
+                    ),
+                    at_op: failed_idx,
+                });
+            }
+        }
+    }
     if fired_at.is_none() {
         stats.inc("fault_not_reached");
     }
